@@ -39,7 +39,7 @@ REQUIRED_CLASSES = (['fam:' + f for f in FAMILIES]
                     + ['rows:1', 'rows:2-59', 'rows:60', 'comment:yes', 'comment:no',
                        'vib:1', 'vib:30', 'list:repeated', 'list:indexed', 'nasa:a_low', 'nasa:a_high',
                        'hdr:blank', 'cell:str_blank', 'cell:numstr_blank', 'cell:zero', 'cell:empty',
-                       'group:empty_in_row', 'group:empty_everywhere', 'sheet:not_first',
+                       'group:empty_in_row', 'group:empty_everywhere', 'row:empty_interior', 'sheet:not_first',
                        'sheet:odd_name', 'preset:explicit_left', 'preset:explicit_right',
                        'element:elements.X', 'element:element.X'])
 REQUIRED_PROBES = ['read_excel', 'set_element', 'set_formula', 'set_statmech_model', 'set_trans_model',
@@ -47,7 +47,9 @@ REQUIRED_PROBES = ['read_excel', 'set_element', 'set_formula', 'set_statmech_mod
                    'set_vib_wavenumbers', 'set_rot_temperatures', 'set_nasa_a_low', 'set_nasa_a_high',
                    'set_list_value', 'set_dict_value']
 ASSUMPTIONS = [
-    'every data row has at least one filled cell (what a completely empty row means is not documented)',
+    'the first and the last data row have at least one filled cell (a trailing empty row does not exist in the '
+    'file; what a leading one means is not documented); completely empty interior rows are generated and must '
+    'give an empty record',
     'headers are unique after trimming except vib_wavenumber / rot_temperature / list.name, which are '
     'documented as repeated; list.name.i columns appear with ascending i (index order == column order)',
     'ordinary headers and list/dict names contain none of the special substrings and are not record keys '
@@ -433,6 +435,10 @@ def generate(rng, tier):
             if h not in fams:
                 fams.append(h)
     headers, rows = _build(rng, nrows, fams, opts)
+    # completely empty *interior* data rows ("any pattern of empty cells"): one (empty) record each
+    if len(rows) >= 3 and rng.random() < 0.2:
+        for j in rng.sample(range(1, len(rows) - 1), min(2, len(rows) - 2)):
+            rows[j] = [None] * len(headers)
     return _spec(rng, headers, rows)
 
 
@@ -896,6 +902,8 @@ def _classes(ctx, spec, refs):
             ctx.cls('group:empty_in_row')
     if any_empty:
         ctx.cls('cell:empty')
+    if any(all(v is None for v in r) for r in spec['rows'][1:-1]):
+        ctx.cls('row:empty_interior')
     ctx.nontrivial(n >= 2 and filled_special and any_empty)
     exp = ctx.extra.setdefault('expected_cells_by_family', {})
     for f, c in cellcount.items():
